@@ -154,3 +154,56 @@ package notifyf
 //@   modifies buf.buf.bytes
 //@   ensures [C03] result == nil && buf.buf.bytes == pre
 //@   safety [C03]
+//
+//@ func (*Notify).ReportNotifyInfoWithContext
+//@   noframe
+//@   site ).Write#0 assert [C01,C16] $2 == 1
+//@   sites ).Write = 1
+//@   site TarsInvoke#0 assert [C01,C16] $1 == 0 && $2 == "reportNotifyInfo"
+//@   sites TarsInvoke = 1
+//@   sites ).Read = 0
+//@   site TarsInvoke#0 assert [C01,C16] ((len(opts) == 1 || len(opts) == 2) ==> $5 == opts[0]) && (len(opts) == 2 ==> $4 == opts[1]) && $5 == contextMap && $4 == statusMap && $6 == tarsResp
+//@   site TarsInvoke#0 ghostafter obj.gresp = addr(*tarsResp)
+//@   site TarsInvoke#0 ghostafter obj.gctx = contextMap
+//@   site TarsInvoke#0 ghostafter obj.gsta = statusMap
+//@   ensures [C01,C16] (result0 == nil && len(opts) == 1) ==> (forall k: seq {cast(obj.gctx, "map[string]string")[k]} {haskey(cast(obj.gctx, "map[string]string"), k)} :: haskey(cast(obj.gctx, "map[string]string"), k) ==> (haskey(cast(obj.gresp, "*requestf.ResponsePacket").Context, k) && cast(obj.gctx, "map[string]string")[k] == cast(obj.gresp, "*requestf.ResponsePacket").Context[k]))
+//@   ensures [C01,C16] (result0 == nil && len(opts) == 2) ==> (forall k: seq {cast(obj.gsta, "map[string]string")[k]} {haskey(cast(obj.gsta, "map[string]string"), k)} :: haskey(cast(obj.gsta, "map[string]string"), k) ==> (haskey(cast(obj.gresp, "*requestf.ResponsePacket").Status, k) && cast(obj.gsta, "map[string]string")[k] == cast(obj.gresp, "*requestf.ResponsePacket").Status[k]))
+//@   ensures [C01,C16] (result0 == nil && len(opts) == 2 && obj.gsta != obj.gctx && obj.gsta != cast(obj.gresp, "*requestf.ResponsePacket").Context) ==> (forall k: seq {cast(obj.gctx, "map[string]string")[k]} {haskey(cast(obj.gctx, "map[string]string"), k)} :: haskey(cast(obj.gctx, "map[string]string"), k) ==> (haskey(cast(obj.gresp, "*requestf.ResponsePacket").Context, k) && cast(obj.gctx, "map[string]string")[k] == cast(obj.gresp, "*requestf.ResponsePacket").Context[k]))
+//@   loop 0 invariant obj.gresp == addr(*tarsResp) && obj.gctx == contextMap && obj.gsta == statusMap && len(opts) == 1 && (forall k: seq {visited(0, k)} :: visited(0, k) ==> !haskey(contextMap, k)) && (forall k: seq {haskey(contextMap, k)} :: haskey(contextMap, k) ==> atentry(0, haskey(contextMap, k)))
+//@   loop 1 invariant obj.gresp == addr(*tarsResp) && obj.gctx == contextMap && obj.gsta == statusMap && len(opts) == 1 && (forall k: seq {contextMap[k]} {haskey(contextMap, k)} :: haskey(contextMap, k) ==> (haskey(tarsResp.Context, k) && contextMap[k] == tarsResp.Context[k]))
+//@   loop 2 invariant obj.gresp == addr(*tarsResp) && obj.gctx == contextMap && obj.gsta == statusMap && len(opts) == 2 && (forall k: seq {visited(2, k)} :: visited(2, k) ==> !haskey(contextMap, k)) && (forall k: seq {haskey(contextMap, k)} :: haskey(contextMap, k) ==> atentry(2, haskey(contextMap, k)))
+//@   loop 3 invariant obj.gresp == addr(*tarsResp) && obj.gctx == contextMap && obj.gsta == statusMap && len(opts) == 2 && (forall k: seq {contextMap[k]} {haskey(contextMap, k)} :: haskey(contextMap, k) ==> (haskey(tarsResp.Context, k) && contextMap[k] == tarsResp.Context[k]))
+//@   loop 4 invariant obj.gresp == addr(*tarsResp) && obj.gctx == contextMap && obj.gsta == statusMap && len(opts) == 2 && (forall k: seq {visited(4, k)} :: visited(4, k) ==> !haskey(statusMap, k)) && (forall k: seq {haskey(statusMap, k)} :: haskey(statusMap, k) ==> atentry(4, haskey(statusMap, k))) && ((statusMap != contextMap && statusMap != tarsResp.Context) ==> (forall k: seq {contextMap[k]} {haskey(contextMap, k)} :: haskey(contextMap, k) ==> (haskey(tarsResp.Context, k) && contextMap[k] == tarsResp.Context[k])))
+//@   loop 5 invariant obj.gresp == addr(*tarsResp) && obj.gctx == contextMap && obj.gsta == statusMap && len(opts) == 2 && (forall k: seq {statusMap[k]} {haskey(statusMap, k)} :: haskey(statusMap, k) ==> (haskey(tarsResp.Status, k) && statusMap[k] == tarsResp.Status[k])) && ((statusMap != contextMap && statusMap != tarsResp.Context) ==> (forall k: seq {contextMap[k]} {haskey(contextMap, k)} :: haskey(contextMap, k) ==> (haskey(tarsResp.Context, k) && contextMap[k] == tarsResp.Context[k])))
+//@   loop 0 modifies mapcells(contextMap)
+//@   loop 1 modifies mapcells(contextMap)
+//@   loop 2 modifies mapcells(contextMap)
+//@   loop 3 modifies mapcells(contextMap)
+//@   loop 4 modifies mapcells(statusMap)
+//@   loop 5 modifies mapcells(statusMap)
+//
+//@ func (*Notify).ReportNotifyInfoOneWayWithContext
+//@   noframe
+//@   site ).Write#0 assert [C01,C16] $2 == 1
+//@   sites ).Write = 1
+//@   sites ).Read = 0
+//@   site TarsInvoke#0 assert [C01,C16] $1 == 1 && $2 == "reportNotifyInfo"
+//@   sites TarsInvoke = 1
+//
+//@ func (*Notify).Dispatch
+//@   noframe
+//@   site Int8ToByte#0 ghost obj.gimpfail = false
+//@   site *#0 assert [C01,C16] !obj.gimpfail
+//@   site *#0 ghostafter obj.gimpfail = false
+//@   site NotifyServant).ReportNotifyInfo#0 ghostafter obj.gimperr = $ret
+//@   site NotifyServant).ReportNotifyInfo#0 ghostafter obj.gimpfail = $ret != nil
+//@   sites NotifyServant).ReportNotifyInfo = 1
+//@   site NotifyServantWithContext).ReportNotifyInfo#0 ghostafter obj.gimperr = $ret
+//@   site NotifyServantWithContext).ReportNotifyInfo#0 ghostafter obj.gimpfail = $ret != nil
+//@   sites NotifyServantWithContext).ReportNotifyInfo = 1
+//@   ensures [C01,C16] obj.gimpfail ==> result == obj.gimperr
+//@   perreturn
+//@   site ).Read#0 assert [C01,C16] $2 == 1
+//@   site ).Read#1 assert [C01,C16] $2 == 0
+//@   sites ).Read = 2
+//@   sites ).Write = 1
